@@ -15,13 +15,38 @@ driven like ``VirtualBoundaryForcing`` drives them (``rv.checks.c06.Comm``).  Pe
   ``sum_c (x_c - p)_a (S F)_b dx^d == sum_m (X_m - p)_a F_b,m`` about a random point p (its antisymmetric part is
   the torque; reported separately).
 
-Tolerances are a-priori rounding models with measured headroom (``rec.stat``; all <= 0.1 over seeds 0..5,
-both tiers): dot product of 4^d terms ``K_DOT·4^d·eps_t·sum|W||u|dx^d``; sequential accumulation of n_c
-contributions ``(K_ACC + n_c/2)·eps_t·(|T0| + sum|W||F|)``; weight error ``K_W·e_m·d·2^-d/dx^d`` per touched
-cell with ``e_m = eps_t + eps64·(|X_m|/dx + 2)`` (C06's measured floor); sums / first moments as in C06.
+Tolerances are a-priori rounding models (``e_m = eps_t + eps64*(|X_m|/dx + 2)`` as in C06, S = cells with
+|r_a| < 2.5 in every direction, n_c = markers touching cell c times number of spreads):
+  interpolation   4*4^d*eps_t*sum|W||u|dx^d + 32*e_m*d*2^-d*sum_S|u|            (dot product + weight noise)
+  spreading       (64 + n_c/2)*eps_t*(|T0| + sum|W||F|) + 32*d*2^-d/dx^d*sum_S e_m|F|   (sequential accumulation + weight noise)
+  bilinear        (4*4^d + 64 + n_max/2)*eps_t*sum_m|F_m|(I|u|)_m   (the weight error itself cancels: same w in both directions)
+  force integral  sum_m|F_m|*((64 + n_max/2)*eps_t + 64*eps_t + 4*eps64*kap_m)
+  first moment    sum_m|F_m|*((|X_m - p| + 2dx)*(same bracket) + 24*e_m*dx)
+Measured max error/tolerance over seeds 0..5 quick and 0,1 thorough (``rec.stat``): interpolation 0.026, spreading 0.080,
+bilinear 0.017, force integral 0.029, first moment 0.020.  (One harness bug was found by the thorough tier and fixed: the
+bilinear tolerance must not vanish when the field is zero on the closed-form support but a noise-level weight of the
+floor-shifted window touches a spike.)
 
-Deliberate breaks tried with ``tools/mut.sh`` — see the table at the end of this docstring (filled in from
-the actual runs).
+Deliberate breaks tried with ``tools/mut.sh --sed`` (files .../EulerianLagrangianGridCommunicator{2,3}D.py; quick tier,
+seed 0; every one reported VIOLATION; mechanisms that fired, most frequent first)
+==========================================================================================================
+ 1  2D scalar spreading  += -> =                            spread(scalar)-overwrites-instead-of-accumulating, force-integral, bilinear-identity,
+                                                            spread(scalar)!=target+W^T F, peskin-first-moment
+ 2  2D vector spreading  += -> =                            same four with (vector)
+ 3  3D scalar spreading  += -> =                            same as 1
+ 4  2D vector spreading: force components reversed          spread(vector)-components-mixed-up, force-integral(vector), bilinear-identity(vector)
+ 5  2D vector interpolation: component 1 reads component 0  interp(vector)!=W u dx^d, bilinear-identity(vector)
+ 6  3D vector interpolation: component 1 without dx**d      interp(vector)!=W u dx^d, bilinear-identity(vector)   ("dx^d on the wrong side")
+ 7  2D scalar spreading x-window +1 (differs from interp.)  spread(scalar)!=target+W^T F, bilinear-identity(scalar), force-integral, first moment
+ 8  3D vector spreading: y-window taken from idx[2]         spread(vector)!=target+W^T F, bilinear-identity(vector), force-integral,
+                                                            spread(vector)-left-target-unchanged (numba silently skips a clipped slice)
+ 9  2D scalar spreading skips the last marker               spread(scalar)!=target+W^T F, force-integral(scalar), bilinear-identity(scalar)
+10  2D scalar spreading uses the weights of marker 0        spread(scalar)!=target+W^T F, bilinear-identity(scalar), first moment
+11  2D scalar interpolation with transposed weights         interp!=W u dx^d, bilinear-identity(scalar)
+12  3D Peskin 3.0 - 2r -> 3.1 - 2r (first factor)           interp/spread vs dense (all four), force-integral, first moment; the bilinear
+                                                            identity rightly stays silent (still adjoint)
+13  3D scalar spreading with transposed weights             spread(scalar)!=target+W^T F, bilinear-identity(scalar), first moment
+14  3D cosine coefficient 0.25/dx -> 0.26/dx                interp/spread vs dense, force-integral (bilinear identity silent: still adjoint)
 """
 import numpy as np
 
